@@ -491,6 +491,9 @@ func (st *State) freshRef(prefix string) string {
 	cur := st.heap("$alloc", "Int")
 	st.assume(fmt.Sprintf("(> %s %s)", r, cur))
 	st.setHeapQuiet("$alloc", "Int", r)
+	if st.writes != nil {
+		st.writes["$alloc"] = true // a loop that allocates moves the frontier
+	}
 	return r
 }
 
